@@ -85,6 +85,12 @@ var genC10Op = rapid.Custom(func(t *rapid.T) C10Op {
 		op.Kind = "dump"
 	default:
 		op.Kind = "reopen"
+		if chancePct(t, 35, "stray") {
+			// what a writer that died between creating its scratch file and renaming it
+			// leaves behind in a filesystem store (or a dot-file put there by a tool)
+			op.Kind = "stray"
+			op.Key = BS([]string{".tmp-1234567", ".tmp-1", ".gitkeep", ".tmp-9999999999"}[uniformN(t, 4, "strayname")])
+		}
 	}
 	switch op.Kind {
 	case "put", "get", "dump":
@@ -130,6 +136,9 @@ func genC10Dump(t *rapid.T) C10Case {
 		if chancePct(t, 8, "othertype") {
 			ops = append(ops, C10Op{Kind: "prefix", Typ: dbTypes[uniformN(t, len(dbTypes), "typ2")]}, C10Op{Kind: "put", Key: BS(k), Val: "other"}, C10Op{Kind: "prefix", Typ: typ})
 		}
+	}
+	if chancePct(t, 15, "stray") {
+		ops = append(ops, C10Op{Kind: "stray", Key: BS([]string{".tmp-1234567", ".tmp-1", ".gitkeep", "..x"}[uniformN(t, 4, "strayname")])})
 	}
 	nd := rapid.IntRange(1, 3).Draw(t, "ndumps")
 	for i := 0; i < nd; i++ {
@@ -329,6 +338,8 @@ type c10Backend struct {
 	open    func() db.Db
 	d       db.Db
 	cleanup func()
+	// dir: the directory of a filesystem backend
+	dir string
 	// handle-local settings have to be re-applied after a reopen
 }
 
@@ -347,7 +358,7 @@ func newC10Backends() []*c10Backend {
 		if bin {
 			name = "fsbin"
 		}
-		out = append(out, &c10Backend{name: name, cleanup: func() { os.RemoveAll(dir) }, open: func() db.Db {
+		out = append(out, &c10Backend{name: name, dir: dir, cleanup: func() { os.RemoveAll(dir) }, open: func() db.Db {
 			d := fsdb.NewFsDb()
 			if bin {
 				d = d.WithBinary()
@@ -498,6 +509,15 @@ func checkC10(c C10Case) (o Outcome) {
 				ref.lock |= safeLock
 				ref.sealed = true
 			}
+		case "stray":
+			for _, b := range bks {
+				if b.dir != "" {
+					if err := os.WriteFile(b.dir+"/"+string(op.Key), []byte("part"), 0600); err != nil {
+						return at(b, "harness", "cannot create the stray file: %v", err)
+					}
+				}
+			}
+			o.class("stray-scratch-file")
 		case "reopen":
 			// a new handle on the same storage; handle-local settings are re-applied
 			for _, b := range bks {
